@@ -580,10 +580,17 @@ func (x *Exec) evalCall(st *State, fr *Frame, e ECall, sc *scope) (Val, error) {
 	case "mint":
 		return Val{T: App(SMInt, "mk-mint", TFalse, args[0].T)}, nil
 	case "bytes":
+		if args[0].T.Sort == SBytes {
+			return args[0], nil
+		}
 		if args[0].T.Sort == SSlice {
 			return Val{T: x.bytesOfIn(x.heapFor(st, sc), args[0].T)}, nil
 		}
 		return Val{}, fmt.Errorf("bytes() of %s", args[0].T.Sort)
+	case "bytesofstr":
+		// content of []byte(s)
+		x.D.DeclareFun("bytes.ofstr", []string{SStr}, SBytes)
+		return Val{T: App(SBytes, "bytes.ofstr", args[0].T)}, nil
 	case "select":
 		return Val{T: Select(args[0].T, args[1].T)}, nil
 	case "store":
@@ -622,7 +629,7 @@ func (x *Exec) evalCall(st *State, fr *Frame, e ECall, sc *scope) (Val, error) {
 		}
 		return Val{T: App(sf.res, sf.smtName, ts...)}, nil
 	}
-	if v, ok := x.specPure(st, e.Fun, args); ok {
+	if v, ok := x.specPure(st, x.heapFor(st, sc), e.Fun, args); ok {
 		return v, nil
 	}
 	return Val{}, fmt.Errorf("unknown spec function %s", e.Fun)
